@@ -102,13 +102,10 @@ static double now_s()
 static double g_t0 = 0, g_deadline = 1e18;   // used only to stop early (reported as a cap), never by an oracle
 static bool out_of_time() { return now_s() - g_t0 > g_deadline; }
 
-// length class used in signatures: residue modulo the block size of the function and whether at least one whole block exists
+// length class used in signatures: residue modulo the block size of the function (which tail path runs)
 static int blk(int fn) { return fn == X86 ? 4 : 8; }
-static int cls_index(int fn, std::size_t L) { return int(L % std::size_t(blk(fn))) + (L >= std::size_t(blk(fn)) ? 8 : 0); }
-static std::string cls_name(int fn, std::size_t L)
-{
-    return "len%" + num(blk(fn)) + "=" + num((long long)(L % std::size_t(blk(fn)))) + ",blocks=" + (L >= std::size_t(blk(fn)) ? "1+" : "0");
-}
+static int cls_index(int fn, std::size_t L) { return int(L % std::size_t(blk(fn))); }
+static std::string cls_name(int fn, std::size_t L) { return "len%" + num(blk(fn)) + "=" + num((long long)(L % std::size_t(blk(fn)))); }
 
 static std::vector<uint64_t> seeds_for(int fn, bool wide)
 {
@@ -172,11 +169,19 @@ static std::vector<std::string> replay_args(int fn, uint64_t seed, int align, in
     return {"--one", FN_NAME[fn], h64(seed), num(align), num(fill), std::string(1, placement), hexs(c, L)};
 }
 
+// occurrences per (function, length class, failure kind); only the first one of a process is written out in full (building the
+// text for millions of failing cases of one defect would dominate the run), the others are counted
+enum { K_WRONG = 0, K_PLACEMENT = 1, K_ASAN_READ = 2, K_ASAN_WRITE = 3, NKIND = 4 };
+static const char* const KIND_NAME[NKIND] = {"wrong-value", "depends-on-placement", "asan-out-of-range-read", "asan-write"};
+static long long g_occ[NFN][8][NKIND];
+
 static void report_value(int fn, uint64_t seed, int align, int fill, char placement, const uint8_t* c, std::size_t L,
                          uint64_t got, uint64_t exp, bool canon_known, uint64_t canon)
 {
     bool canonical = placement == 'R' && align == 0;
-    const char* kind = (canonical || !canon_known || canon != exp) ? "wrong-value" : "depends-on-placement";
+    const int k = (canonical || !canon_known || canon != exp) ? K_WRONG : K_PLACEMENT;
+    if (g_occ[fn][cls_index(fn, L)][k]++ > 0) return;
+    const char* kind = KIND_NAME[k];
     std::string sig = std::string("C14/") + FN_NAME[fn] + "/" + cls_name(fn, L) + "/" + kind;
     std::string msg = std::string(FN_NAME[fn]) + "(key, " + num((long long)L) + ", seed " + h64(seed) + ") with key bytes " + spaced(c, L) + ", " +
                       placement_text(placement, align, fill) + ": returned " + h64(got) + ", reference " + REF_NAME[fn] + " gives " + h64(exp);
@@ -184,24 +189,49 @@ static void report_value(int fn, uint64_t seed, int align, int fill, char placem
     vf::violation(sig, msg, replay_args(fn, seed, align, fill, placement, c, L));
 }
 
+#ifdef VERIF_ASAN
+// the callback runs inside AddressSanitizer's report path: copy into a static buffer, allocate nothing there
+static char g_asan_buf[640];
+static void asan_report_cb(const char* text)
+{
+    std::size_t n = text ? std::min<std::size_t>(std::strlen(text), sizeof g_asan_buf - 1) : 0;
+    if (n) std::memcpy(g_asan_buf, text, n);
+    g_asan_buf[n] = 0;
+}
+#endif
+
 static void report_asan(int fn, uint64_t seed, int align, int fill, char placement, const uint8_t* c, std::size_t L, const unsigned char* key)
 {
     ++g_asan_reports;
     std::string what = "AddressSanitizer report";
-    const char* kind = "asan-out-of-range-read";
+    int k = K_ASAN_READ;
 #ifdef VERIF_ASAN
-    const char* d = __asan_get_report_description();
-    long long off = (long long)(reinterpret_cast<uintptr_t>(__asan_get_report_address()) - reinterpret_cast<uintptr_t>(key));
-    int wr = __asan_get_report_access_type();
-    if (wr) kind = "asan-write";
-    what = std::string("AddressSanitizer: ") + (d ? d : "?") + ", " + (wr ? "WRITE" : "READ") + " of size " + num((long long)__asan_get_report_access_size()) +
-           " at key" + (off >= 0 ? "+" : "") + num(off);
+    {
+        // first lines of the report text: "ERROR: AddressSanitizer: <kind> on address 0x... at pc ..." and "READ|WRITE of size N at 0x..."
+        const std::string t(g_asan_buf);
+        std::string d = "?";
+        std::size_t p = t.find("AddressSanitizer: ");
+        if (p != std::string::npos) { p += 18; std::size_t q = t.find(' ', p); if (q != std::string::npos) d = t.substr(p, q - p); }
+        unsigned long long addr = 0;
+        p = t.find("on address 0x");
+        if (p != std::string::npos) addr = std::strtoull(t.c_str() + p + 11, nullptr, 16);
+        bool wr = t.find("WRITE of size") != std::string::npos;
+        long long size = 0;
+        p = t.find(" of size ");
+        if (p != std::string::npos) size = std::atoll(t.c_str() + p + 9);
+        if (wr) k = K_ASAN_WRITE;
+        what = "AddressSanitizer: " + d + ", " + (wr ? "WRITE" : "READ") + " of size " + num(size);
+        if (addr) { long long off = (long long)(addr - reinterpret_cast<uintptr_t>(key)); what += std::string(" at key") + (off >= 0 ? "+" : "") + num(off); }
+        g_asan_buf[0] = 0;
+    }
 #else
     (void)key;
 #endif
+    if (g_occ[fn][cls_index(fn, L)][k]++ > 0) return;
+    const char* kind = KIND_NAME[k];
     std::string sig = std::string("C14/") + FN_NAME[fn] + "/" + cls_name(fn, L) + "/" + kind;
     std::string msg = std::string(FN_NAME[fn]) + "(key, " + num((long long)L) + ", seed " + h64(seed) + ") with key bytes " + spaced(c, L) + ", " +
-                      placement_text(placement, align, fill) + ": " + what + " — only [key, key+" + num((long long)L) + ") may be accessed";
+                      placement_text(placement, align, fill) + ": " + what + " - only [key, key+" + num((long long)L) + ") may be accessed";
     vf::violation(sig, msg, replay_args(fn, seed, align, fill, placement, c, L));
 }
 
@@ -219,7 +249,7 @@ struct Engine
     std::vector<uint64_t> seeds[NFN];
     std::size_t L = 0;
     std::vector<Block> blocks;      // [placement index][align index]
-    bool skip[NFN][16][2];
+    bool skip[NFN][8][2];
     bool sampled[4] = {false, false, false, false};
 
     Engine() { std::memset(skip, 0, sizeof skip); }
@@ -490,7 +520,7 @@ static void run_guard(const std::vector<GCase>& cases)
             if (sh->res[i] != exp)
                 vf::violation(std::string("C14/") + FN_NAME[g.fn] + "/" + cls_name(g.fn, g.L) + "/wrong-value",
                               std::string(FN_NAME[g.fn]) + "(key, " + num((long long)g.L) + ", seed " + h64(g.seed) + ") with key bytes " + spaced(cp, g.L) +
-                                  (g.side == 0 ? ", key ending at a page boundary" : ", key starting at a page boundary") + ": returned " + h64(sh->res[i]) +
+                                  (g.side == 0 ? ", key ending at a page boundary (address % 8 == " + num((long long)((PG - g.L) % 8)) + ")" : ", key starting at a page boundary (address % 8 == 0)") + ": returned " + h64(sh->res[i]) +
                                   ", reference " + REF_NAME[g.fn] + " gives " + h64(exp),
                               greplay(g));
         }
@@ -503,7 +533,7 @@ static void run_guard(const std::vector<GCase>& cases)
                           std::string(FN_NAME[g.fn]) + "(key, " + num((long long)g.L) + ", seed " + h64(g.seed) + ") with key bytes " +
                               spaced(reinterpret_cast<const uint8_t*>(c.data()), g.L) +
                               (g.side == 0 ? ", last key byte = last byte of a page, next page inaccessible" : ", first key byte = first byte of a page, previous page inaccessible") +
-                              ": the call was killed by signal " + num(WTERMSIG(st)) + " — it accessed memory outside [key, key+" + num((long long)g.L) + ")",
+                              ": the call was killed by signal " + num(WTERMSIG(st)) + " - it accessed memory outside [key, key+" + num((long long)g.L) + ")",
                           greplay(g));
             start = ok_end + 1;
         }
@@ -590,7 +620,7 @@ static void fs_content(const std::string& c, bool verbose)
         if (verbose) std::printf("%s %s -> %s\n", x.type.c_str(), x.history.c_str(), h64(x.h).c_str());
         if (!first) { first = &x; continue; }
         if (x.h != first->h)
-            vf::violation("C14/std::hash<fixed_string>/" + x.type + "/" + x.history + "/differs-for-equal-strings",
+            vf::violation("C14/std::hash<fixed_string>/" + x.type + "/differs-for-equal-strings",
                           "the string with bytes " + spaced(reinterpret_cast<const uint8_t*>(c.data()), c.size()) + " hashes to " + h64(x.h) + " as " + x.type + " built by " +
                               x.history + " but to " + h64(first->h) + " as " + first->type + " built by " + first->history + " (both compare equal to the intended bytes)",
                           {"--fs-one", hexs(c)});
@@ -641,6 +671,9 @@ static std::vector<int> parse_list(const std::string& s)
 int main(int argc, char** argv)
 {
     g_t0 = now_s();
+#ifdef VERIF_ASAN
+    __asan_set_error_report_callback(asan_report_cb);
+#endif
     selftest();
     std::string part = "main";
     std::size_t lmin = 0, lmax = 39, len = 3;
@@ -687,9 +720,18 @@ int main(int argc, char** argv)
     else if (part == "guard") part_guard(lmax, wide);
     else if (part == "fs") part_fs();
     else if (part != "") { std::fprintf(stderr, "unknown part %s\n", part.c_str()); return 2; }
+    for (int fn = 0; fn < NFN; ++fn)
+        for (int c = 0; c < 8; ++c)
+            for (int k = 0; k < NKIND; ++k)
+                if (g_occ[fn][c][k] > 1)
+                    vf::note(std::string("C14/") + FN_NAME[fn] + "/" + cls_name(fn, std::size_t(c)) + "/" + KIND_NAME[k] + ": " + num(g_occ[fn][c][k]) + " failing evaluations in one harness process");
     vf::stat("evaluations", g_evals);
     vf::stat("distinct_nontrivial", g_distinct);
-    if (g_skipped) vf::stat("evaluations_skipped_after_asan_report_in_same_class", g_skipped);
+    if (g_skipped)
+    {
+        vf::stat("evaluations_skipped_after_asan_report_in_same_class", g_skipped);
+        vf::cap("after an AddressSanitizer report the remaining evaluations of the same (function, length class, placement) were skipped in this process");
+    }
     if (g_asan_reports) vf::stat("asan_reports", g_asan_reports);
     vf::done();
     return 0;
